@@ -51,6 +51,8 @@ class Gen:
             f["fail_transfer"] = [r.choice([0, 1])]
         if r.random() < 0.02:
             f["fail_oracle"] = True
+        if r.random() < 0.03:
+            f["blocked"] = [self.su.treasury, self.su.treasury2]      # honoured by the implementation-led chain only
         return f or None
 
     def ensure_funds(self, who, denom, amount):
@@ -246,7 +248,11 @@ class Gen:
         elif x < 0.40:
             mint_to = r.choice(su.native_users + [su.staker])
         elif x < 0.44:
-            mint_to = r.choice(["", "osmo1invalid", su.validators[0], su.users[0].upper()])
+            mint_to = r.choice(["", "osmo1invalid", su.validators[0], su.users[0].upper(),
+                                # multi-byte characters straddling the byte offset where a configured prefix ends
+                                su.proto_prefix[:-1] + "€1" + su.users[0][len(su.proto_prefix) + 1:],
+                                su.native_prefix[:-2] + "é" + su.native_users[0][len(su.native_prefix) - 1:],
+                                su.native_prefix[:-1] + "€"])
         if r.random() < 0.3:
             flag = r.choice([True, False])
         expected = None
